@@ -8,7 +8,7 @@ use crate::wl::{self as gen_, asm};
 use crate::rng::{mix, tag, Rng};
 
 /// (family, weight, sections it uses with the main one first)
-pub const FAMILIES: &[(&str, u64)] = &[("aranges", 10), ("addr", 6), ("str", 4), ("pub", 6)];
+pub const FAMILIES: &[(&str, u64)] = &[("aranges", 10), ("addr", 6), ("str", 4), ("pub", 6), ("line", 24), ("macros", 6)];
 
 pub fn families_for(prop: &str) -> Vec<(&'static str, u64)> {
     match prop {
@@ -22,6 +22,8 @@ pub fn main_section(family: &str) -> &'static str {
         "addr" => "debug_addr",
         "str" => "debug_str_offsets",
         "pub" => "debug_pubnames",
+        "line" => "debug_line",
+        "macros" => "debug_macinfo",
         _ => "",
     }
 }
@@ -181,6 +183,39 @@ fn gen_family(rng: &mut Rng, c: &mut Case, fam: &str, be: bool) {
             gen_::corrupt_some(rng, &mut v, gen_::fixture("debug_pubtypes"), &mut note);
             c.put("debug_pubtypes", v.clone());
             c.put("debug_pubnames", v);
+        }
+        "line" => {
+            let asz = c.knob("addr_size", 8) as u8;
+            let mut v = match rng.below(10) {
+                0 => {
+                    note.push_str("noise");
+                    gen_::noise(rng, 256)
+                }
+                1..=2 if !be => {
+                    note.push_str("fixture");
+                    gen_::fixture_slice(rng, "debug_line", 1, 6000)
+                }
+                _ => {
+                    note.push_str("asm");
+                    asm::line_program(rng, be, asz)
+                }
+            };
+            gen_::corrupt_some(rng, &mut v, gen_::fixture("debug_line"), &mut note);
+            c.put("debug_line", v);
+        }
+        "macros" => {
+            let mut i = asm::macros(rng, be, false);
+            let mut m = asm::macros(rng, be, true);
+            note.push_str("asm");
+            gen_::corrupt_some(rng, &mut i, &[], &mut note);
+            gen_::corrupt_some(rng, &mut m, &[], &mut note);
+            if rng.chance(1, 10) {
+                i = gen_::noise(rng, 64);
+                m = i.clone();
+                note.push_str("+noise");
+            }
+            c.put("debug_macinfo", i);
+            c.put("debug_macro", m);
         }
         _ => panic!("gen_family: {}", fam),
     }
